@@ -177,6 +177,8 @@ def main(argv=None):
         for q, h in led.get(u.name, {}).get('closure', {}).items():
             if closure_now.get(q) != h:
                 changed = True
+        if led.get(u.name) is not None and set(r['inlined']) - set(led[u.name].get('closure', {})):
+            changed = True      # the unit now reaches a function it did not reach on the baseline
         for e in r['errors']:
             if e.startswith('unsupported') and (changed or not led):
                 undecided.append((u.name, e))
